@@ -149,6 +149,13 @@ func (c *fconn) WriteTo(m ndp.Message, _ *ipv6.ControlMessage, dst netip.Addr) e
 		life = ra.RouterLifetime.String()
 	}
 	vsched.Obs("write-begin", "conn=%d dst=%s lifetime=%s", c.id, dst, life)
+	c.w.mu.Lock()
+	c.w.nWrite++
+	nw, hw := c.w.nWrite, c.w.hookWrite
+	c.w.mu.Unlock()
+	if hw != nil {
+		hw(nw, dst)
+	}
 	if after {
 		vsched.Obs("io-after-close", "WriteTo on conn %d dst=%s", c.id, dst)
 	}
@@ -200,6 +207,13 @@ func (s *fstate) IPv6Forwarding(iface string) (bool, error) {
 	v, err := s.fwd[iface], s.fwdErr
 	s.mu.Unlock()
 	vsched.Obs("fwd-read", "%s=%t err=%v", iface, v, err)
+	s.w.mu.Lock()
+	s.w.nFwd++
+	nf, hf := s.w.nFwd, s.w.hookFwd
+	s.w.mu.Unlock()
+	if hf != nil {
+		hf(nf)
+	}
 	return v, err
 }
 func (s *fstate) IPv6Autoconf(iface string) (bool, error) {
@@ -241,6 +255,12 @@ type world struct {
 	dialFault  func(n int) error
 	writeFault func(c *fconn, dst netip.Addr) error
 	latency    bool
+	// hooks called (in the calling goroutine) when the n-th (1-based) WriteTo
+	// begins / forwarding read happens: used to arm harness threads at
+	// constructed instants.
+	hookWrite func(n int, dst netip.Addr)
+	hookFwd   func(n int)
+	nWrite, nFwd int
 
 	ndial int
 }
